@@ -56,7 +56,8 @@ func (f *FilterData) SelectorMatch(item any) bool {
 		}
 
 		itemValue := itemF.Elem().Interface()
-		if itemValue != value {
+		// values like addresses contain lists and can not be compared with !=
+		if !reflect.DeepEqual(itemValue, value) {
 			return false
 		}
 	}
